@@ -455,6 +455,14 @@ func init() {
 					for op := 0; op <= 2; op++ {
 						it = append(it, Item{PkgKey: "band", Func: "VerifC15_Step", Shape: []int{n, 0, 0, k, op}})
 					}
+					for op1 := 0; op1 <= 2; op1++ {
+						for op2 := 0; op2 <= 3; op2++ {
+							if tier != "thorough" && op2 != 3 && op2 != (op1+1)%3 {
+								continue
+							}
+							it = append(it, Item{PkgKey: "band", Func: "VerifC15_StepQueries", Shape: []int{n, 0, 0, k, op1, op2}})
+						}
+					}
 					it = append(it, Item{PkgKey: "band", Func: "VerifC15_Lookup", Shape: []int{n, 0, 0, k}})
 				}
 				for rep := 0; rep <= 1; rep++ {
@@ -535,6 +543,10 @@ func init() {
 				if w <= 17 {
 					it = append(it, Item{PkgKey: "fragmentation", Func: "VerifC19_Linear", Shape: []int{w, 2, 3}})
 				}
+			}
+			// fragment counts up to 300 (the matrix line generator branches on power-of-two counts and works modulo the count)
+			for _, w := range pick(tier, []int{64, 100, 127, 128, 129, 255, 256, 257, 258, 260, 264, 272, 288, 299, 300}, rng(67, 300)) {
+				it = append(it, Item{PkgKey: "fragmentation", Func: "VerifC19_Encode", Shape: []int{w, 1, 3}})
 			}
 			it = append(it, Item{PkgKey: "fragmentation", Func: "VerifC19_Encode", Shape: []int{4, 2, 0}})
 			for n := 0; n <= 8; n++ {
@@ -843,6 +855,7 @@ func init() {
 				it = append(it, Item{PkgKey: "backend", Func: "VerifC17_UnwrapIff", Shape: []int{l}})
 			}
 			it = append(it, Item{PkgKey: "backend", Func: "VerifC17_EnvelopeClear", Shape: []int{0}}, Item{PkgKey: "backend", Func: "VerifC17_EnvelopeClear", Shape: []int{1}})
+			it = append(it, Item{PkgKey: "backend", Func: "VerifC17_ISO8601", Shape: []int{0}}, Item{PkgKey: "backend", Func: "VerifC17_ISO8601", Shape: []int{1}})
 			for _, n := range []int{0, 1, 7, 8, 15, 16, 17, 23, 24, 25, 32, 40} {
 				it = append(it, Item{PkgKey: "backend", Func: "VerifC17_UnwrapAnyLength", Shape: []int{n}})
 			}
@@ -853,7 +866,7 @@ func init() {
 		},
 		Bounds: func(tier string) map[string]string { return map[string]string{} },
 		Stubs: append(append([]string{"encoding/json.Marshal(float64) + strconv.ParseFloat: documented round-trip contract (shortest decimal parses back to the same float64)", "go-aes-key-wrap executed from source over the AES uninterpreted functions"}, stubCrypto...), stubErrors...),
-		Outside: []string{"the 20 payload structs through encoding/json (reflection), ISO8601Time (time.Format/Parse), omitempty behaviour"},
+		Outside: []string{"the 20 payload structs through encoding/json (reflection), omitempty behaviour", "ISO8601Time: the calendar digits (time.Format / time.Parse are modelled at the level of 'wall-clock second + zone designator'), instants outside 1970-01-02..2106-02-06, zone offsets that are not whole minutes"},
 	})
 }
 
@@ -874,10 +887,18 @@ func init() {
 					}
 				}
 			}
+			// handler layer (ServeHTTP with the JSON contract model): pairs of requests, one after the other and nested
+			for ka := 0; ka <= 5; ka++ {
+				for kb := 0; kb <= 5; kb++ {
+					for mode := 0; mode <= 2; mode++ {
+						it = append(it, Item{PkgKey: "joinserver", Func: "VerifC16_Handler", Shape: []int{ka, kb, mode}})
+					}
+				}
+			}
 			return it
 		},
 		Bounds:  func(tier string) map[string]string { return map[string]string{} },
 		Stubs:   append(append([]string{"logrus: no-op", "go-aes-key-wrap executed from source over the AES uninterpreted functions"}, stubCrypto...), stubErrors...),
-		Outside: []string{"ServeHTTP, JSON decoding of requests, the UnknownDevEUI mapping (callback + HTTP layer), goroutine interleavings of concurrent requests (the wrappers write no package-level state)"},
+		Outside: []string{"the JSON text itself (encoding/json is replaced by its contract: the fields present in the text are assigned, absent ones stay; the answer value handed to json.Marshal is what is checked)", "goroutine interleavings other than 'request B runs to completion while request A waits in a call-back'", "HomeNSReq"},
 	})
 }
